@@ -123,6 +123,39 @@ STREAMS = [
 ND = ["{\"a\": 1}\n{\"b\": \"é\"}\n", "{\"a\": 1}\r\n\r\n  [1, 2]  \r\n3", "\n\n{}\n"]
 
 
+LINE_KINDS = ["data: v", "data:", "event: e", "id: 7", "retry: 10", ": c", "bare"]
+
+
+def bounded_sse_grammar(tier, seed):
+    """every SSE stream of one or two blocks of at most two lines over 7 line kinds (data with / without value, event, id, retry, comment, field-less),
+    last block terminated or not, LF / CRLF: events against the reference decoder (whole body and split in the middle)"""
+    import itertools
+    from pyopenapi_gen.core import streaming_helpers as sh
+    blocks = [[a] for a in LINE_KINDS] + [[a, b] for a in LINE_KINDS for b in LINE_KINDS]
+    rnd = random.Random(seed)
+    streams = [[b] for b in blocks]
+    pairs = [[a, b] for a in blocks for b in blocks]
+    streams += pairs if tier != "quick" else rnd.sample(pairs, 250)
+    n, failures = 0, []
+    for bl in streams:
+        for nl in ("\n", "\r\n"):
+            for terminated in (True, False):
+                text = (nl + nl).join(nl.join(b) for b in bl) + (nl + nl if terminated else "")
+                data = text.encode()
+                ref = ref_events(text)
+                for ch in ([data], [data[: len(data) // 2], data[len(data) // 2:]]):
+                    n += 1
+                    got = [(e.data, e.event, e.id) for e in _collect(sh.iter_sse, ch)]
+                    if got != ref:
+                        kind = "unterminated-last-block" if not terminated else "terminated"
+                        if len(failures) < 5:
+                            failures.append({"id": f"bounded:iter_sse:grammar:{kind}", "detail": f"{text!r}: {got} != {ref}", "input": {"stream": text, "chunks": [c.hex() for c in ch]}})
+                        break
+    return {"function": "iter_sse over a grammar of small SSE streams, against the reference decoder", "backend": "bounded",
+            "bound": f"{len(streams)} block sequences x LF/CRLF x terminated/unterminated x 2 chunkings", "evaluations": n, "distinct_nontrivial": n,
+            "exhaustive": tier != "quick", "failures": failures}
+
+
 def bounded_helpers_chunked(tier, seed):
     from pyopenapi_gen.core import streaming_helpers as sh
     rnd = random.Random(seed)
@@ -163,7 +196,7 @@ def bounded_helpers_chunked(tier, seed):
             "evaluations": n, "distinct_nontrivial": n, "exhaustive": False, "failures": failures}
 
 
-BOUNDED = [bounded_helpers_chunked, bounded_httpx_lines]
+BOUNDED = [bounded_helpers_chunked, bounded_httpx_lines, bounded_sse_grammar]
 
 MANIFEST = {
     "category": "proof",
